@@ -43,7 +43,7 @@ Ev == Trace[l + 1]
 TReset ==
   /\ l < Len(Trace) /\ Ev.e = "reset"
   /\ \A p \in Procs : Idle(p)
-  /\ cx' = EmptyCx /\ live' = {} /\ taint' = {} /\ aliases' = {} /\ ncalls' = 0 /\ h' = <<>>
+  /\ cx' = EmptyCx /\ live' = {} /\ aliases' = {} /\ ncalls' = 0 /\ h' = <<>>
   /\ l' = l + 1 /\ Mark(l + 1)
   /\ UNCHANGED <<prog, stk, cur, ldefs, racy, turn, done, res>>
 
@@ -62,7 +62,7 @@ TInv ==
      /\ done' = [done EXCEPT ![p] = FALSE]
   /\ ncalls' = ncalls + 1
   /\ l' = l + 1 /\ Mark(l + 1)
-  /\ UNCHANGED <<cx, taint, aliases, turn, h, res, live>>
+  /\ UNCHANGED <<cx, aliases, turn, h, res, live>>
 
 \* One mutex section of a pending call (silent).
 TStep(p) ==
@@ -74,7 +74,6 @@ TStep(p) ==
      /\ stk' = [stk EXCEPT ![p] = r.st]
      /\ ldefs' = [ldefs EXCEPT ![p] = r.ld]
      /\ racy' = [racy EXCEPT ![p] = @ \/ r.race]
-     /\ taint' = taint \cup r.t
      /\ aliases' = IF cur[p].m = "reset" THEN {} ELSE aliases \cup r.ak
      /\ done' = [done EXCEPT ![p] = fin]
      /\ res' = [res EXCEPT ![p] = IF fin THEN [r |-> r.st[Len(r.st)], rb |-> r.rb] ELSE @]
@@ -94,20 +93,20 @@ TResp ==
      /\ res' = [res EXCEPT ![p] = NoRes]
   /\ l' = l + 1 /\ Mark(l + 1)
   /\ h' = <<>>
-  /\ UNCHANGED <<cx, prog, stk, ldefs, racy, ncalls, live, taint, aliases, turn>>
+  /\ UNCHANGED <<cx, prog, stk, ldefs, racy, ncalls, live, aliases, turn>>
 
 TReuse ==
   /\ l < Len(Trace) /\ Ev.e = "reuse" /\ Ev.b \in live
   /\ live' = live \ {Ev.b}
   /\ l' = l + 1 /\ Mark(l + 1)
   /\ h' = <<>>
-  /\ UNCHANGED <<cx, taint, aliases, prog, stk, cur, ldefs, racy, ncalls, turn, done, res>>
+  /\ UNCHANGED <<cx, aliases, prog, stk, cur, ldefs, racy, ncalls, turn, done, res>>
 
 TNext == TReset \/ TInv \/ TResp \/ TReuse \/ \E p \in Procs : TStep(p)
 
 TSpec == TInit /\ [][TNext]_tvars
 
-TView == <<cx, prog, stk, cur, ldefs, racy, live, taint, aliases, l, done, res>>
+TView == <<cx, prog, stk, cur, ldefs, racy, live, aliases, l, done, res>>
 
 \* Acceptance: some behaviour consumed the whole trace.  The mark reached is
 \* printed so that the harness can name the first history that is not a
